@@ -335,7 +335,7 @@ class Net:
                 return "n/a"
             self.sched.run(w[1])
             if w[1].state != "done":
-                raise Infra("dlc_net: connect() parked again")
+                return "n/a"                         # waits again: not what connect() does (the model says ok / refused)
             del self.waiter[(x, i)]
             return self._thread_result(w[1], "ok")
         if kind == "accept":
@@ -383,7 +383,7 @@ class Net:
                 return "n/a"
             self.sched.run(w[1])
             if w[1].state != "done":
-                raise Infra("dlc_net: close() parked again")
+                return "n/a"
             del self.waiter[(x, i)]
             return self._thread_result(w[1], "done")
         raise Infra("dlc_net: unknown op " + line)
